@@ -228,6 +228,35 @@ func c07AutoMask(r *fw.Rec, v int, l qrref.Level) {
 	r.Nontrivial(fmt.Sprintf("automask/%d/%d/%d", v, l, rng.Uint64()))
 }
 
+// c07BitDistance: the Hamming distance the nearest-codeword searches are built on, against a
+// bit-by-bit count: every 18-bit value against 0, and random pairs.
+func c07BitDistance(r *fw.Rec) {
+	pop := func(x uint) int {
+		n := 0
+		for ; x != 0; x >>= 1 {
+			n += int(x & 1)
+		}
+		return n
+	}
+	for a := uint(0); a < 1<<18; a++ {
+		if got := qrdec.FormatInformation_NumBitsDiffering(a, 0); got != pop(a) {
+			r.Violation("model-mismatch", "qr.tables:bit-distance", fmt.Sprintf("FormatInformation_NumBitsDiffering(%#x, 0) = %d, the values differ in %d bits", a, got, pop(a)), map[string]interface{}{"a": a, "b": 0})
+			return
+		}
+	}
+	r.Evals(1 << 18)
+	for i := 0; i < 200000; i++ {
+		a, b := uint(r.Rng.Uint64()&0xFFFFFFFF), uint(r.Rng.Uint64()&0xFFFFFFFF)
+		if got := qrdec.FormatInformation_NumBitsDiffering(a, b); got != pop(a^b) {
+			r.Violation("model-mismatch", "qr.tables:bit-distance", fmt.Sprintf("FormatInformation_NumBitsDiffering(%#x, %#x) = %d, the values differ in %d bits", a, b, got, pop(a^b)), map[string]interface{}{"a": a, "b": b})
+			return
+		}
+	}
+	r.Evals(200000)
+	r.Tally("bit_distance_function_checked")
+	r.Nontrivial("bit-distance")
+}
+
 func c07Tables(r *fw.Rec) {
 	for v := 1; v <= 40; v++ {
 		ver, err := qrdec.Version_GetVersionForNumber(v)
@@ -365,6 +394,8 @@ func c07(c *fw.Ctx) {
 			c.Run(fmt.Sprintf("automask/%d/%s", v, qrLevelName[l]), func(r *fw.Rec) { c07AutoMask(r, v, l) })
 		}
 	}
+	c.Run("bit-distance", func(r *fw.Rec) { c07BitDistance(r) })
+	c.Floor("bit_distance_function_checked", 1)
 	c.Floor("automatic_mask_matrices_equal", 200)
 	c.Floor("encoder_matrices_equal", int64(1280*reps*9/10))
 	c.Floor("decoder_reference_symbols_read", int64(1280*reps*9/10))
